@@ -12,6 +12,7 @@ import (
 // the capability flags so that only supported operations are ever generated.
 type GroupInfo struct {
 	Name       string
+	Modulus    *big.Int // residue groups: the prime P (elements are integers mod P)
 	Family     string // ed25519, edvar, p256, qr512, bn256, bn254, bls-kilic, bls-circl, bls-gnark
 	G          kyber.Group
 	Order      *big.Int // order of the scalar ring (q; 8q for full Edwards groups)
